@@ -384,7 +384,7 @@ func judgePrec(r *vrun.Run, c *Case, res *Result) {
 			r.ObsSet("validation_failure_levels", depthName(l))
 		}
 		if !lo.ErrInvalid {
-			r.Violation(vrun.Sig{"clause": "validation", "ep": c.API, "effect": "error-not-invalid-kind", "level": depthName(blank[0])},
+			r.Violation(vrun.Sig{"clause": "validation", "effect": "error-not-invalid-kind", "level": depthName(blank[0])},
 				"validation failure reported with a kind other than 'invalid': "+lo.ErrText, wit(nil))
 		}
 		named := false
@@ -399,7 +399,7 @@ func judgePrec(r *vrun.Run, c *Case, res *Result) {
 			for _, l := range blank {
 				bl = append(bl, l.goPath()+" ["+l.tagPath(".")+"]")
 			}
-			r.Violation(vrun.Sig{"clause": "validation", "ep": c.API, "effect": "offending-field-not-named", "level": depthName(blank[0]), "style": styleName},
+			r.Violation(vrun.Sig{"clause": "validation", "effect": "offending-field-not-named", "level": depthName(blank[0]), "style": styleName},
 				fmt.Sprintf("error %q names none of the blank required fields %v", lo.ErrText, bl), wit(map[string]any{"blank": bl}))
 		}
 		// the values of a structure whose loading failed are not judged (don't care)
@@ -408,7 +408,7 @@ func judgePrec(r *vrun.Run, c *Case, res *Result) {
 	r.Obs("loads_succeeded", 1)
 	if len(blank) > 0 {
 		l := blank[0]
-		r.Violation(vrun.Sig{"clause": "validation", "ep": c.API, "effect": "nil-although-validate-fails", "level": depthName(l), "style": styleName},
+		r.Violation(vrun.Sig{"clause": "validation", "effect": "nil-although-validate-fails", "level": depthName(l)},
 			fmt.Sprintf("loading returned nil although required field %s of %s is blank (%q)", l.goPath(), td.Name, lo.Values[l.goPath()]), wit(map[string]any{"blank": l.goPath()}))
 	}
 	for _, fp := range c.Fields {
